@@ -3,3 +3,5 @@ import J1939.Props.C14
 #print axioms J1939.Props.C14.c14_request_frame
 #print axioms J1939.Props.C14.c14_dispatch
 #print axioms J1939.Props.C14.c14_dll_passes_request
+#print axioms J1939.Props.C14.mask_req
+#print axioms J1939.Props.C14.c14_request_end_to_end
